@@ -340,8 +340,8 @@ theorem invC_reorg {U : Map Blk} (W : World U) {s : St} {hb : Blk} {C O R N : Li
     (hbU : U b.id = some b) (hpar : parentOf s.store b = some p) (hps : s.hasState b.parent = true)
     {ptd : Nat} (hptd : s.td b.parent = some ptd)
     (hsplit : C = O ++ R) (hO : Path s.store hb O c) (hR : Path s.store c R s.genesis)
-    (hN : Path s.store b N c) (hNne : N ≠ []) (hnc : s.canon b.number ≠ some b.id) :
-    InvC U (afterCanon (reorgApply (afterStored s b ptd) hb.number O N) b) b (N ++ R) := by
+    (hN : Path s.store b N c) (hNne : N ≠ []) (hnc : s.canon b.number ≠ some b.id) {F : Nat} (hF : hb.number ≤ F) :
+    InvC U (afterCanon (reorgApply (afterStored s b ptd) F O N) b) b (N ++ R) := by
   obtain ⟨N', hNeq⟩ : ∃ N', N = b :: N' := by
     rcases hN.head_eq with ⟨h1, _⟩ | ⟨l', h1⟩
     · exact absurd h1 hNne
@@ -361,19 +361,19 @@ theorem invC_reorg {U : Map Blk} (W : World U) {s : St} {hb : Blk} {C O R N : Li
   have hs1c : s1.canon = s.canon := rfl
   have hs1l : s1.lookup = s.lookup := rfl
   -- closed forms of the final state
-  have hfc : (afterCanon (reorgApply s1 hb.number O N) b).canon =
-      upd (delCanonAbove (N.foldr reorgStep s1).canon (hb.number + 1) (b.number + 1)) b.number (some b.id) := by
+  have hfc : (afterCanon (reorgApply s1 F O N) b).canon =
+      upd (delCanonAbove (N.foldr reorgStep s1).canon (F + 1) (b.number + 1)) b.number (some b.id) := by
     rw [hNeq]; simp [afterCanon, insertHead, reorgApply]
-  have hfl : (afterCanon (reorgApply s1 hb.number O N) b).lookup =
+  have hfl : (afterCanon (reorgApply s1 F O N) b).lookup =
       writeLookups (delLookups (N.foldr reorgStep s1).lookup (txDifference (O.flatMap (·.txs)) (N.flatMap (·.txs)))) b := by
     rw [hNeq]; simp [afterCanon, insertHead, reorgApply]
   -- the fold's canonical entries
   have hfoldb : (N.foldr reorgStep s1).canon b.number = some b.id := foldr_canon_in s1 N hinj b hbN
   have hlow : ∀ n, n < b.number + 1 →
-      delCanonAbove (N.foldr reorgStep s1).canon (hb.number + 1) (b.number + 1) n = (N.foldr reorgStep s1).canon n :=
+      delCanonAbove (N.foldr reorgStep s1).canon (F + 1) (b.number + 1) n = (N.foldr reorgStep s1).canon n :=
     fun n hn => delCanonAbove_below _ _ _ _ hn
-  have hheads : (afterCanon (reorgApply s1 hb.number O N) b).hhead = b.id ∧
-      (afterCanon (reorgApply s1 hb.number O N) b).fhead = b.id := by
+  have hheads : (afterCanon (reorgApply s1 F O N) b).hhead = b.id ∧
+      (afterCanon (reorgApply s1 F O N) b).fhead = b.id := by
     have hne : (N'.foldr reorgStep s1).canon b.number ≠ some b.id := by
       rw [foldr_canon_notin]
       · exact hnc
@@ -388,12 +388,12 @@ theorem invC_reorg {U : Map Blk} (W : World U) {s : St} {hb : Blk} {C O R N : Li
           have := (parentOf_some hp').2
           omega
     have h2 := foldr_hhead_cons s1 b N' hne
-    have hcb : delCanonAbove ((b :: N').foldr reorgStep s1).canon (hb.number + 1) (b.number + 1) b.number = some b.id := by
+    have hcb : delCanonAbove ((b :: N').foldr reorgStep s1).canon (F + 1) (b.number + 1) b.number = some b.id := by
       rw [delCanonAbove_below _ _ _ _ (by omega), ← hNeq]; exact hfoldb
     rw [hNeq]
     simp only [afterCanon, insertHead, reorgApply, hcb]
     simpa using h2
-  have := invC_newchain W (s := s) (s' := afterCanon (reorgApply s1 hb.number O N) b) (O := O) (R := R) (N := N) (b := b) (c := c)
+  have := invC_newchain W (s := s) (s' := afterCanon (reorgApply s1 F O N) b) (O := O) (R := R) (N := N) (b := b) (c := c)
     h hsplit hO hR hbU hN hNne
     (by simp [afterCanon, insertHead, reorgApply_store, s1, afterStored, afterTd])
     (by simp [afterCanon, insertHead, reorgApply_genesis, s1, afterStored, afterTd])
@@ -414,7 +414,7 @@ theorem invC_reorg {U : Map Blk} (W : World U) {s : St} {hb : Blk} {C O R N : Li
     (by
       intro n hn
       rw [hfc, upd_other _ _ _ _ (by omega)]
-      apply delCanonAbove_clears (hb.number + 1) _ (b.number + 1) (max hb.number b.number + 1) (by omega)
+      apply delCanonAbove_clears (F + 1) _ (b.number + 1) (max hb.number b.number + 1) (by omega)
       · intro k hk1 hk2
         rw [foldr_canon_notin _ _ _ (by intro x hx; have := (hNnum x hx).2; omega), hs1c]
         obtain ⟨x, hx, hxn⟩ := h.canonBelow k (by omega)
@@ -523,8 +523,8 @@ theorem invC_withoutState {U : Map Blk} (W : World U) {s : St} {hb : Blk} {C : L
 
 /-- the degenerate "reorganisation" onto the head itself: every write repeats what is already there -/
 theorem invC_rehead {U : Map Blk} (W : World U) {s : St} {hb : Blk} {C : List Blk} (h : InvC U s hb C) {p : Blk}
-    (hpar : parentOf s.store hb = some p) {ptd : Nat} (hptd : s.td hb.parent = some ptd) :
-    InvC U (afterCanon (reorgApply (afterStored s hb ptd) hb.number [] []) hb) hb C := by
+    (hpar : parentOf s.store hb = some p) {ptd : Nat} (hptd : s.td hb.parent = some ptd) (F : Nat) :
+    InvC U (afterCanon (reorgApply (afterStored s hb ptd) F [] []) hb) hb C := by
   have hbU := h.headU W
   have hid := h.headId W
   obtain ⟨he1, he2⟩ := storeExt_upd h hbU
@@ -535,13 +535,13 @@ theorem invC_rehead {U : Map Blk} (W : World U) {s : St} {hb : Blk} {C : List Bl
   have hbnd : hb.txs.Nodup := by
     have := W.nodup _ _ _ _ hbU (Path.cons (parentOf_mono h.sub hpar) (.nil p))
     simpa using this
-  have hcanon : ∀ n, (afterCanon (reorgApply (afterStored s hb ptd) hb.number [] []) hb).canon n = s.canon n := by
+  have hcanon : ∀ n, (afterCanon (reorgApply (afterStored s hb ptd) F [] []) hb).canon n = s.canon n := by
     intro n
     simp only [afterCanon, insertHead, reorgApply, afterStored, afterTd, List.foldr_nil, upd_upd_same, updB_updB_same]
     by_cases hn : n = hb.number
     · subst hn; simp [h.canonHead]
     · rw [upd_other _ _ _ _ hn]
-  refine invC_frame h (s' := afterCanon (reorgApply (afterStored s hb ptd) hb.number [] []) hb) ?_ ?_ rfl hcanon ?_ ?_ ?_ ?_
+  refine invC_frame h (s' := afterCanon (reorgApply (afterStored s hb ptd) F [] []) hb) ?_ ?_ rfl hcanon ?_ ?_ ?_ ?_
     ?_ ?_ ?_ ?_ ?_ ?_ ?_ ?_ ?_
   · simpa [afterCanon, insertHead, reorgApply, afterStored, afterTd] using he1
   · simpa [afterCanon, insertHead, reorgApply, afterStored, afterTd] using he2
@@ -663,11 +663,12 @@ theorem inv_wbws {U : Map Blk} (W : World U) {s : St} (h : Inv U s) {b p : Blk} 
                 cases hwU; rfl
             subst hcc
             subst hs2
-            have hfuel : reorgFuel (afterStored s b ptd) hb = hb.number := by
+            have hfuel : hb.number ≤ reorgFuel (afterStored s b ptd) hb := by
               have h1 : (afterStored s b ptd).store s.head = some hb := hext' _ _ h.headStored
               simp [reorgFuel, afterStored, afterTd, h.hheadEq] at h1 ⊢
               rw [h1]; simp
-            rw [hfuel]
+              omega
+            generalize reorgFuel (afterStored s b ptd) hb = F at hfuel ⊢
             have hpid : p.id = b.parent := W.ids _ _ (h.sub _ _ (parentOf_some hpar).1)
             by_cases hNe : nc1 ++ nc2 = []
             · -- b is the common block, hence canonical; by total difficulty it is the head itself
@@ -690,7 +691,7 @@ theorem inv_wbws {U : Map Blk} (W : World U) {s : St} (h : Inv U s) {b p : Blk} 
                 | nil => rfl
                 | cons a l => rw [hl] at this; simp at this
               rw [hOe, hNe]
-              exact ⟨b, C, invC_rehead W h hpar hptd⟩
+              exact ⟨b, C, invC_rehead W h hpar hptd F⟩
             · have hnc : s.canon b.number ≠ some b.id := by
                 intro hc
                 obtain ⟨x, hx, hxn, hxi⟩ := (h.canon _ _).mp hc
@@ -712,7 +713,7 @@ theorem inv_wbws {U : Map Blk} (W : World U) {s : St} (h : Inv U s) {b p : Blk} 
                 subst hob
                 have := (hsame rfl).2
                 simp [this] at hNe
-              exact ⟨b, (nc1 ++ nc2) ++ R, invC_reorg W h hbU hpar hps hptd hsplit hO hR hN hNe hnc⟩
+              exact ⟨b, (nc1 ++ nc2) ++ R, invC_reorg W h hbU hpar hps hptd hsplit hO hR hN hNe hnc hfuel⟩
       · have hdec' : decideReorg (ptd + b.diff) localTd b.number hb.number coin = false := by
           cases hd : decideReorg (ptd + b.diff) localTd b.number hb.number coin
           · rfl
